@@ -36,11 +36,11 @@ func (c *Ctx) tryBlob(stream string, blob []byte, model bool, reqs *[]string, pe
 	var pj *simdjson.ParsedJson
 	var err error
 	var pan string
-	ok := withDeadline(20*time.Second, func() { pj, err, pan = safeDeserialize(s, blob, nil) })
+	ok := withDeadline(120*time.Second, func() { pj, err, pan = safeDeserialize(s, blob, nil) })
 	info := map[string]interface{}{"blob_hex": fmt.Sprintf("%x", trunc(string(blob), 3000)), "stream": stream, "blob_len": len(blob)}
 	c.Ev.Count(stream, blob, true)
 	if !ok {
-		c.Violate("hang", "Deserialize did not return within 20 s", "deser-hang", info)
+		c.Violate("hang", "Deserialize did not return within 120 s", "deser-hang", info)
 		return
 	}
 	if pan != "" {
@@ -51,9 +51,9 @@ func (c *Ctx) tryBlob(stream string, blob []byte, model bool, reqs *[]string, pe
 	if err == nil && pj != nil {
 		c.Ev.Dist("deser:ok")
 		var rp string
-		okr := withDeadline(30*time.Second, func() { rp = exerciseReads(pj, 80, len(pj.Tape) < 20000) })
+		okr := withDeadline(120*time.Second, func() { rp = exerciseReads(pj, 80, len(pj.Tape) < 20000) })
 		if !okr {
-			c.Violate("hang", "a read method did not return within 30 s on a deserialized result", "deser-read-hang", info)
+			c.Violate("hang", "a read method did not return within 120 s on a deserialized result", "deser-read-hang", info)
 			return
 		}
 		if rp != "" {
@@ -107,9 +107,9 @@ func (c *Ctx) probeInChild(stream string, blob []byte) bool {
 	info := map[string]interface{}{"blob_hex": fmt.Sprintf("%x", blob), "stream": stream}
 	select {
 	case err = <-done:
-	case <-time.After(60 * time.Second):
+	case <-time.After(180 * time.Second):
 		cmd.Process.Kill()
-		c.Violate("hang", "Deserialize + read API did not finish within 60 s (child process)", "deser-child-hang", info)
+		c.Violate("hang", "Deserialize + read API did not finish within 180 s (child process)", "deser-child-hang", info)
 		return false
 	}
 	if err != nil {
@@ -202,7 +202,8 @@ func checkC19(c *Ctx) {
 			case 1: // value word mutation
 				if len(vals) >= 8 {
 					p := r.Intn(len(vals)/8) * 8
-					choices := []uint64{0, 1, ^uint64(0), ^uint64(0) - 1, uint64(len(tags)), ts, ts + 1, uint64(-int64(p / 8)), 1 << 55, 1 << 56, 1 << 63, r.U64()}
+					choices := []uint64{0, 1, ^uint64(0), ^uint64(0) - 1, uint64(len(tags)), ts, ts + 1, uint64(-int64(p / 8)), 1 << 55, 1 << 56, 1 << 63, r.U64(),
+						uint64(tagAlphabet[r.Intn(len(tagAlphabet))])<<56 | uint64(r.Intn(4)), uint64('N')<<56, uint64('N')<<56 | 1}
 					binary.LittleEndian.PutUint64(vals[p:], choices[r.Intn(len(choices))])
 				}
 			case 2: // tape size
@@ -339,6 +340,34 @@ func checkC19(c *Ctx) {
 		}
 	}
 	inject(rebuild(6, []byte{'r', '{', 'e', '}', 'r'}, le(6, 4, uint64('N')<<56, 0, ^uint64(0)-4), nil))
+	// the blobs found while proving API totality (F17/F18): a string whose OFFSET word
+	// carries tag bits (turning the entry into null, so that its length word N|0 is read
+	// as an entry in key position), and a nested root whose jump lands on a number's
+	// payload word N|0
+	for _, hx := range []string{
+		"03520900000000070800727b225b227d7240410009000000000000000700000000000000000000000000000000000000000000000200000000000000000000000000006e000000000000004ef8ffffffffffffff",
+		"034a0900000000070800727b2272757d7238390009000000000000000700000000000000000000000000000000000000000000000200000000000000000000000000004ef8ffffffffffffff",
+		"032f0500000000040500725b647220210005000000000000000200000000000000000000000000f03ffcffffffffffffff",
+		"03290600000000060700725b6e6e5d7218190004000000000000000400000000000000fbffffffffffffff",
+		"03400700000000050600727b22757230310007000000000000000400000000000000000000000000000000000000000000000700000000000000faffffffffffffff",
+	} {
+		if b, err := hex.DecodeString(hx); err == nil {
+			inject(b)
+		}
+	}
+	// the family around them: a string entry (as key and as value) whose offset / length
+	// words are tag-shaped, for every pair of tags
+	for _, t1 := range tagAlphabet {
+		for _, t2 := range tagAlphabet {
+			for _, k := range []uint64{0, 1} {
+				w1, w2 := uint64(t1)<<56, uint64(t2)<<56|k
+				inject(rebuild(9, []byte{'r', '{', '"', '[', '"', '}', 'r'}, le(9, 7, 0, 0, 2, w1, w2, ^uint64(0)-7), []byte("ab")))
+				if k == 0 {
+					inject(rebuild(8, []byte{'r', '{', '"', 'r', 'u', '}', 'r'}, le(8, 6, 0, 1, 2, w2, ^uint64(0)-6), []byte("ab")))
+				}
+			}
+		}
+	}
 	// the same with an object-start word pointing backwards, a root word, a string word
 	for _, w := range []uint64{uint64('{')<<56 | 1, uint64('[')<<56 | 0, uint64('r')<<56 | 0, uint64('"')<<56 | 1<<55, uint64('N')<<56 | 1, uint64('N')<<56 | 1<<40} {
 		inject(rebuild(6, []byte{'r', '[', 'e', ']', 'r'}, le(6, 4, w, ^uint64(0), ^uint64(0)-4), nil))
